@@ -13,7 +13,7 @@ trap 'git -C /repo checkout -- . ; echo "[/repo restored]"' EXIT
 if [ -f "$d/demo.py" ]; then
   echo "demo on changed tree:"; PYTHONPATH=/repo/src /venv/bin/python "$d/demo.py" 2>&1 | tail -2; echo "  exit=${PIPESTATUS[0]}"
 fi
-if [ "${RUNTESTS:-1}" = 1 ]; then /tmp/runtests.sh /repo; fi
+if [ "${RUNTESTS:-1}" = 1 ]; then /verif/tools/runtests.sh /repo; fi
 cd /verif
 for p in "$@"; do
   out=$(./check "$p" quick 2>&1); rc=$?
